@@ -24,15 +24,15 @@ var (
 	mu       sync.Mutex
 	seq      uint64
 	events   []Event
-	gates    = map[string]chan struct{}{} // label -> channel closed on release
-	ones     = map[string]chan struct{}{} // label -> tokens, each letting exactly one parked goroutine go
-	detached = map[string][]chan struct{}{}
-	held     = map[string]int{} // label -> number of goroutines currently parked
-	cond     = sync.NewCond(&mu)
-	ids      = map[interface{}]uint64{}
-	spins    = map[string]*int32{} // label -> flag of a spin gate (goroutines busy-wait: released within nanoseconds of each other)
-	logging  int32 = 1             // 0: Point does not log (race-detector runs: the log's mutex would order the goroutines it is meant to observe)
-	ngates   int32                 // number of labels currently held (Hold/HoldSpin); with logging off and no gate Point touches nothing shared
+	gates          = map[string]chan struct{}{} // label -> channel closed on release
+	ones           = map[string]chan struct{}{} // label -> tokens, each letting exactly one parked goroutine go
+	detached       = map[string][]chan struct{}{}
+	held           = map[string]int{} // label -> number of goroutines currently parked
+	cond           = sync.NewCond(&mu)
+	ids            = map[interface{}]uint64{}
+	spins          = map[string]*int32{} // label -> flag of a spin gate (goroutines busy-wait: released within nanoseconds of each other)
+	logging  int32 = 1                   // 0: Point does not log (race-detector runs: the log's mutex would order the goroutines it is meant to observe)
+	ngates   int32                       // number of labels currently held (Hold/HoldSpin); with logging off and no gate Point touches nothing shared
 )
 
 // SetLogging switches the event log on or off. With the log off and no gate held, Point and ID do not take any lock, so that they
